@@ -46,6 +46,12 @@ def catalogue():
     def tail():
         return ops.TailLoop([B], [Q], [tys.Unit], ["ext.tl"])
 
+    def _const_fn():
+        from hugr.build.dfg import Dfg
+        d = Dfg(B)
+        d.set_outputs(d.add_op(Not, d.inputs()[0]))
+        return d.hugr
+
     _CAT = [
         ("Noop", lambda: ops.Noop(B), 1, 1, True, False),
         ("Not", lambda: Not, 1, 1, True, False),
@@ -73,6 +79,18 @@ def catalogue():
         ("Conditional", lambda: ops.Conditional(tys.Sum([[B], []]), [Q], [Q]), 2, 1, True, True),
         ("Case", lambda: ops.Case([B, Q], [Q]), 0, 0, False, True),
         ("TailLoop", tail, 2, 2, True, True),
+        ("NatPolyDecl", lambda: ops.FuncDecl("np", tys.PolyFuncType(
+            [tys.BoundedNatParam(), tys.BoundedNatParam(4), tys.StringParam(), tys.ExtensionsParam(),
+             tys.ListParam(tys.TypeTypeParam(tys.TypeBound.Any)), tys.TupleParam([tys.StringParam()])],
+            tys.FunctionType([tys.USize(), tys.Alias("al", tys.TypeBound.Copyable)], [tys.RowVariable(4, tys.TypeBound.Any)]))), 0, 1, False, False),
+        ("NatPolyCall", lambda: ops.Call(tys.PolyFuncType([tys.BoundedNatParam()], tys.FunctionType([B], [B])),
+                                         tys.FunctionType([B], [B]), [tys.VariableArg(0, tys.BoundedNatParam())]), 2, 1, True, False),
+        ("CustomArgs", lambda: ops.Custom("Op2", tys.FunctionType([B], []), "", "unknown.ext",
+                                          [tys.StringArg("s☃"), tys.ExtensionsArg(["a", "b"]), tys.SequenceArg([tys.TypeTypeArg(tys.Tuple())]),
+                                           tys.VariableArg(1, tys.BoundedNatParam(3)), tys.TypeTypeArg(tys.Option())]), 1, 0, True, False),
+        ("FuncConst", lambda: ops.Const(val.Function(_const_fn())), 0, 1, False, False),
+        ("SumConst", lambda: ops.Const(val.Sum(1, tys.Sum([[B], [B, tys.Unit]]), [val.TRUE, val.Unit])), 0, 1, False, False),
+        ("DFGdelta", lambda: ops.DFG([B], [B], ["ext.d1", "ext.d2"]), 1, 1, True, True),
         ("AliasDecl", lambda: ops.AliasDecl("al", tys.TypeBound.Copyable), 0, 0, False, False),
         ("AliasDefn", lambda: ops.AliasDefn("ad", tys.Tuple(B, Q)), 0, 0, False, False),
     ]
